@@ -2,6 +2,7 @@ package checks
 
 import (
 	"fmt"
+	"strings"
 	"time"
 
 	"verifharness/internal/conc"
@@ -108,6 +109,18 @@ func windowScenario(c *sup.Ctx, r *rng.R, props []string) {
 					run{"WriteSubDoc@cas", func(k string) (conc.WindowResult, string) { return conc.SubdocWindow(b, k, pre, rival, true, false) }},
 					run{"SubdocInsert@cas", func(k string) (conc.WindowResult, string) { return conc.SubdocWindow(b, k, pre, rival, true, true) }})
 			}
+			if pre == "live" && rival == "Set" {
+				// what an attempt that lost its CAS check asked for (expiry, macro specs) must not leak into the one that wins
+				leak := []string{"C03", "C07", "C14"}
+				runs = append(runs,
+					run{"Update/first-attempt-expiry", func(k string) (conc.WindowResult, string) {
+						return conc.UpdateExpiryWindow(b, k, "first-attempt-expiry")
+					}},
+					run{"Update/expiry-only", func(k string) (conc.WindowResult, string) { return conc.UpdateExpiryWindow(b, k, "expiry-only") }},
+					run{"WriteUpdateWithXattrs/leak", func(k string) (conc.WindowResult, string) { return conc.WriteUpdateLeakWindow(b, k, 0) }},
+					run{"WriteUpdateWithXattrs/leak+exp", func(k string) (conc.WindowResult, string) { return conc.WriteUpdateLeakWindow(b, k, 2000000999) }})
+				_ = leak
+			}
 			for _, ru := range runs {
 				n++
 				key := fmt.Sprintf("w%d", n)
@@ -119,6 +132,9 @@ func windowScenario(c *sup.Ctx, r *rng.R, props []string) {
 				c.Cell(fmt.Sprintf("window|%s|%s|%s|%s", ru.name, pre, rival, ifStr(disk, "disk", "mem")))
 				if msg != "" {
 					ps := props
+					if strings.Contains(ru.name, "/") {
+						ps = []string{"C03", "C07", "C14"}
+					}
 					c.Viol(ps, fmt.Sprintf("window|%s|%s|%s", ru.name, pre, rival), msg, res)
 				}
 				if n == 1 {
@@ -183,7 +199,7 @@ func init() {
 	)
 	sup.Register(&sup.Check{
 		Prop: "C02", Level: "exploration",
-		Rule: "(sequential) engine A over the ten conditional entry points x every pre-state class x CAS class {0, current, stale, never-issued} with accept-iff-current judged against the model and the frame rule on every rejection; (concurrent) 2-4 conditional writers that all hold the same version are released together through 1-3 handles (all ordered pairs of entry points covered): exactly one must succeed, the losers must fail with a CAS-mismatch class and the final CAS must be the winner's; (forced windows) a rival write is committed deterministically inside the read-write window of Update / WriteUpdateWithXattrs (from the callback) and WriteSubDoc / SubdocInsert (at the subdoc.rw hook): the loop must re-read or, with an explicit CAS, fail, and both effects must survive; cell = (variant, pre-state, outcome, bucket type) / (racing pair, winner) / (loop, pre-state, rival)",
+		Rule:        "(sequential) engine A over the ten conditional entry points x every pre-state class x CAS class {0, current, stale, never-issued} with accept-iff-current judged against the model and the frame rule on every rejection; (concurrent) 2-4 conditional writers that all hold the same version are released together through 1-3 handles (all ordered pairs of entry points covered): exactly one must succeed, the losers must fail with a CAS-mismatch class and the final CAS must be the winner's; (forced windows) a rival write is committed deterministically inside the read-write window of Update / WriteUpdateWithXattrs (from the callback) and WriteSubDoc / SubdocInsert (at the subdoc.rw hook): the loop must re-read or, with an explicit CAS, fail, and both effects must survive; cell = (variant, pre-state, outcome, bucket type) / (racing pair, winner) / (loop, pre-state, rival)",
 		Assumptions: kvAssume,
 		Parts:       parts02,
 		RaceOwner:   func(string) bool { return false },
@@ -205,7 +221,7 @@ func init() {
 	)
 	sup.Register(&sup.Check{
 		Prop: "C18", Level: "exploration",
-		Rule: "(sequential) engine A: WriteSubDoc / SubdocInsert / GetSubDocRaw over JSON documents of depth <= 3 with dotted paths that are present, absent, or run through scalars and arrays, empty value = remove, every CAS class; the post-write document must equal the pre-document with exactly the addressed property set/removed (JSON equality with numbers compared as exact rationals: integers beyond 2^53 and long decimals must survive in every property; removals with nil and with empty non-nil values; paths through a null-valued property; documents that end in insignificant whitespace); (concurrent) 3-8 clients each own one property of one document and set / remove it or insert fresh properties while others append to a list through Update and write xattrs: at the end every property reflects its owner's last acknowledged operation, every inserted property and list token is present once and untouched properties are preserved; (forced windows) a rival write is placed at the subdoc.rw hook between the read and the write; cell = (variant, pre-state, outcome, bucket type) / (loop, pre-state, rival)",
+		Rule:        "(sequential) engine A: WriteSubDoc / SubdocInsert / GetSubDocRaw over JSON documents of depth <= 3 with dotted paths that are present, absent, or run through scalars and arrays, empty value = remove, every CAS class; the post-write document must equal the pre-document with exactly the addressed property set/removed (JSON equality with numbers compared as exact rationals: integers beyond 2^53 and long decimals must survive in every property; removals with nil and with empty non-nil values; paths through a null-valued property; documents that end in insignificant whitespace); (concurrent) 3-8 clients each own one property of one document and set / remove it or insert fresh properties while others append to a list through Update and write xattrs: at the end every property reflects its owner's last acknowledged operation, every inserted property and list token is present once and untouched properties are preserved; (forced windows) a rival write is placed at the subdoc.rw hook between the read and the write; cell = (variant, pre-state, outcome, bucket type) / (loop, pre-state, rival)",
 		Assumptions: kvAssume,
 		Parts:       parts18,
 		RaceOwner:   func(string) bool { return false },
